@@ -33,6 +33,9 @@ HOSTILE = [
     ("python-import", "__import__('os').system('echo pwned')", None),
     ("python-nest", "[" * 300 + "]" * 300, None),
     ("python-bigint", "9" * 6000, None),
+    ("python-bytes", ' b"bytes value"', None),
+    ("python-complex", " 3j", None),
+    ("python-set", " {1, 2, (3, 4)}", None),
     ("python-dict", "{'a': 1, 'b': [1, 2, {'c': None}]}", None),
     ("control", "ctrl \x01\x02\x07\x1b[31m end", None),
     ("unicode", "ünïcödé ✓ 漢字 ‮ rtl", None),
@@ -59,6 +62,10 @@ HOSTILE = [
     ("dollar-var-quoted", '  "$user_message Q8end"', None),
     ("blank-then-prose", "\nI'm sorry, I can't help with that.\n\n", None),
     ("shaped-steps-user-only", "user ask something else", None),
+    # well-formed for value generation (a quoted Python string): the string's content is LLM-made message text
+    ("shaped-value-jinja", ' "Q7{{ user_name }}Q8 is your name"', None),
+    ("shaped-value-var", ' "Q7$name or {$name}Q8 sets your name"', None),
+    ("shaped-value-backslash", ' "Q7C:\\\\temp\\\\new {x}Q8"', None),
     ("shaped-intent-then-steps", 'ask shaped\nbot inform shaped three\n  "Q7{{ 7*7 }}Q8"', "Q749Q8"),
 ]
 
